@@ -4,6 +4,8 @@ use crate::report::{CheckMeta, Outcome};
 use crate::Ctx;
 
 pub mod diag;
+pub mod codes;
+pub mod modelval;
 pub mod readers;
 pub mod writers;
 
@@ -11,6 +13,8 @@ pub fn run(id: &str, ctx: &Ctx) -> (CheckMeta, Outcome) {
     match id {
         "C01" => writers::c01(ctx),
         "C02" => readers::c02(ctx),
+        "C03" => codes::c03(ctx),
+        "C04" => codes::c04(ctx),
         _ => {
             println!("unknown property {}", id);
             std::process::exit(2);
@@ -24,11 +28,13 @@ pub fn replay_file(path: &str) -> i32 {
     let s = std::fs::read_to_string(path).expect("cannot read replay file");
     let doc: serde_json::Value = serde_json::from_str(&s).expect("replay file is not JSON");
     let r = if doc.get("replay").is_some() { doc["replay"].clone() } else if doc.get("hang_at").is_some() { doc["hang_at"].clone() } else { doc.clone() };
+    let diag = diag::probe();
     crate::util::silence_stderr();
     let run = |r: &serde_json::Value| -> (Vec<String>, bool) {
         match r["kind"].as_str().unwrap_or("") {
             "reader" => crate::rdsys::replay(r),
             "writer" => crate::wrsys::replay(r),
+            "item" => crate::streams::replay_item(r, &diag),
             k => (vec![format!("unknown replay kind {:?}", k)], false),
         }
     };
